@@ -79,7 +79,9 @@ def update_prog(kind, a, op, prefix):
     return pre.format(a=a) + " var r = (" + upd + "); [r, " + after + "]"
 
 
-def gen_tree(rng, depth):
+def gen_tree(rng, depth, root=True):
+    """** only at the root: its result is implementation-approximated (1 ulp between correct engines), and any operator
+    applied on top of it (<<, %, comparisons) can amplify that ulp into a different answer that says nothing about the engine."""
     if depth == 0 or rng.random() < 0.25:
         v = rng.choice(GRID)
         if is_integral_num(v) and rng.random() < 0.3:
@@ -87,11 +89,13 @@ def gen_tree(rng, depth):
         return spell(v)
     r = rng.random()
     if r < 0.15:
-        return "(" + rng.choice(UNOPS[:5]) + gen_tree(rng, depth - 1) + ")"
+        return "(" + rng.choice(UNOPS[:5]) + gen_tree(rng, depth - 1, False) + ")"
     if r < 0.22:
-        return "(" + gen_tree(rng, depth - 1) + " ? " + gen_tree(rng, depth - 1) + " : " + gen_tree(rng, depth - 1) + ")"
+        return "(" + gen_tree(rng, depth - 1, False) + " ? " + gen_tree(rng, depth - 1, False) + " : " + gen_tree(rng, depth - 1, False) + ")"
     op = rng.choice(BINOPS[:23])
-    return "(" + gen_tree(rng, depth - 1) + " " + op + " " + gen_tree(rng, depth - 1) + ")"
+    while op == "**" and not root:
+        op = rng.choice(BINOPS[:23])
+    return "(" + gen_tree(rng, depth - 1, False) + " " + op + " " + gen_tree(rng, depth - 1, False) + ")"
 
 
 def build_cases(ctx):
